@@ -50,7 +50,7 @@ class C14(Prop):
                    'vkit/simdist for the communication part']
     exhaustive = True
     examples = {'quick': 120, 'thorough': 800}
-    shards = {'quick': 4, 'thorough': 16}
+    shards = {'quick': 8, 'thorough': 16}
     enum_shards = {'quick': 4, 'thorough': 16}
     required_labels = {'quick': ['kind=pack', 'kind=comm', 'kind=reject', 'wide=True', 'subgroup=True'], 'thorough': ['kind=pack', 'kind=comm', 'kind=reject', 'wide=True']}
 
